@@ -638,7 +638,14 @@ pub fn all_shapes(thorough: bool) -> Vec<Box<dyn Shape>> {
 /// * uni-STARK over the hiding PCS (no integration test of the repository exercises it).
 pub fn defect_shapes() -> Vec<Box<dyn Shape>> {
     use airs::TAir;
-    vec![cfgs::kbzk::uni(TAir::Fib { rows: 8 })]
+    vec![
+        cfgs::kbzk::uni(TAir::Fib { rows: 8 }),
+        // * an AIR whose preprocessed column is declared row-local (`preprocessed_next_row_columns()`
+        //   empty, no `preprocessed_next` in the proof): both circuit verifiers insist on a
+        //   full-width preprocessed_next opening (uni and batch).
+        cfgs::bb::uni(TAir::SubRl { rows: 8 }),
+        cfgs::kb::batch(vec![TAir::SubRl { rows: 8 }, TAir::Add { rows: 8 }]),
+    ]
 }
 
 /// Ad-hoc shape from a spec `cfg/kind/air,air,..` (airs: fibN addN subN pvN mulN mulnN; kind: uni|batch|circN).
@@ -660,6 +667,7 @@ pub fn probe_shape(spec: &str) -> Option<Box<dyn Shape>> {
                         "add" => TAir::Add { rows },
                         "addrl" => TAir::AddRl { rows },
                         "sub" => TAir::Sub { rows },
+                        "subrl" => TAir::SubRl { rows },
                         "pv" => TAir::Pv { rows },
                         "per" => TAir::Per { rows },
                         "mul" => TAir::Mul { degree: 2, rows, reps: 3, prep: true },
